@@ -15,6 +15,11 @@ import re
 from vlib.core import Acc
 
 KEYS = "abcdefgh"
+#: the other keys a configuration may use: names with leading / trailing underscores as
+#: keyword items of a typed mapping, non-string keys in plain mappings (str() of each is
+#: unambiguous inside a location)
+ODD_TYPED_KEYS = ("__leaf__", "__k", "_c", "d__", "__e__", "f", "__g", "h_")
+ODD_PLAIN_KEYS = (1, None, False, "__p__", 7, 12, "q", "__r")
 SCALARS = (1, "text", None, 2.5, True, "")
 FACTORY_MODULE = "vlib.c19_factories"
 
@@ -95,10 +100,30 @@ def count_mappings(shape):
     return (shape[0] == "m") + sum(count_mappings(child) for child in shape[-1])
 
 
-def build(shape, marks):
+def build(shape, marks, odd=False):
     """The configuration structure of a shape; ``marks[i]`` is the factory kind (or None)
     of the i-th mapping in pre-order; scalars are numbered through ``SCALARS``"""
     counters = [0, 0]
+    if odd:
+        def rec_odd(node):
+            if node[0] == "s":
+                counters[0] += 1
+                return SCALARS[(counters[0] - 1) % len(SCALARS)]
+            if node[0] == "l":
+                return [rec_odd(child) for child in node[1]]
+            ident = counters[1]
+            counters[1] += 1
+            out = {}
+            keys = ODD_PLAIN_KEYS
+            if marks[ident] is not None:
+                out["__type__"] = factory_name(marks[ident], ident)
+                keys = ODD_TYPED_KEYS
+            for index, child in enumerate(node[2]):
+                out["__args__" if index == node[1] and marks[ident] is not None
+                    else keys[index]] = rec_odd(child)
+            return out
+
+        return rec_odd(shape)
 
     def rec(node):
         if node[0] == "s":
@@ -205,7 +230,12 @@ def precedes(first, second):
     return None
 
 
-TOKEN = re.compile(r"\.([A-Za-z_][A-Za-z0-9_]*)|\[([0-9]+)\]")
+TOKEN = re.compile(r"\.([A-Za-z_0-9][A-Za-z0-9_]*)|\[([0-9]+)\]")
+
+
+def as_written(path):
+    """A path as a location spells it: keys by their str()"""
+    return tuple((step, str(where) if step == "key" else where) for step, where in path)
 
 
 def tokenise(where):
@@ -442,7 +472,9 @@ def judge(structure, result, error, log, error_type):
         return ("where:not-a-path",
                 "ConfigurationError.where is %r; failing factories at %s"
                 % (where, [show(f[0]) for f in failing]))
-    culprit = [f for f in failing if f[0] == tokens]
+    failing_raw = failing
+    failing = [(as_written(f[0]),) + tuple(f[1:]) for f in failing]
+    culprit = [raw for raw, f in zip(failing_raw, failing) if f[0] == tokens]
     if not culprit:
         what = "ConfigurationError.where is %r; failing factories at %s" % (
             where, [show(f[0]) for f in failing])
@@ -485,15 +517,26 @@ def mark_vectors(count, alphabet):
 
 
 def shard(args):
-    size, part, parts, reduced = args
+    size, part, parts, reduced = args[:4]
+    odd = len(args) > 4 and args[4]
     acc = Acc()
     alphabet = REDUCED if reduced else FULL
     for index, shape in enumerate(trees(size)):
         if index % parts != part:
             continue
         for marks in mark_vectors(count_mappings(shape), alphabet):
-            structure = build(shape, marks)
+            structure = build(shape, marks, odd)
             verdict = run_case(structure)
+            if odd:
+                marked = any(mark is not None for mark in marks)
+                acc.case(nontrivial_key=repr(structure) if marked else None,
+                         sample=None)
+                acc.outcome(("odd-keys", verdict is None))
+                if verdict is not None:
+                    # keys that JSON cannot hold: the replay rebuilds the structure
+                    acc.violation("odd-keys:" + verdict[0], verdict[1],
+                                  {"shape": shape, "marks": list(marks), "odd": True})
+                continue
             marked = any(mark is not None for mark in marks)
             acc.case(nontrivial_key=repr(structure) if marked else None,
                      sample=structure if marked and acc.evaluations % 9973 == 41 else None)
@@ -510,6 +553,8 @@ def run(ctx):
     # smaller trees first, so that the recorded counterexamples are small ones
     ctx.pmap(shard, [(size, 0, 1, False) for size in (1, 2, 3)])
     ctx.pmap(shard, [(4, part, 16, False) for part in range(16)])
+    ctx.pmap(shard, [(size, 0, 1, False, True) for size in (1, 2, 3)]
+             + [(4, part, 16, False, True) for part in range(16)])
     ctx.pmap(shard, [(5, part, 96, False) for part in range(96)])
     ctx.pmap(shard_pipeline, [(size,) for size in range(1, 6 if ctx.quick else 8)])
     if reduced_size:
@@ -537,7 +582,10 @@ def run(ctx):
         "pipelines: __type__ elements with a failing element / nested child at every "
         "position, through load_pipeline; only the reported location is compared",
         "mapping keys are simple identifiers (a key containing '.' or '[' makes the "
-        "reported path ambiguous by construction); __args__ is a list",
+        "reported path ambiguous by construction); __args__ is a list; trees with <= 4 "
+        "nodes additionally with the keys %r as keyword items of typed mappings and %r as "
+        "keys of plain mappings (non-string keys cannot be keyword arguments)"
+        % (ODD_TYPED_KEYS, ODD_PLAIN_KEYS),
         "no order is demanded between the items of one mapping: only 'children before "
         "parents' and 'within a list, later items before earlier ones'; with several "
         "failing factories the reported one must have no failing factory before it in that "
@@ -551,5 +599,11 @@ def replay(data):
     if "pipeline" in data:
         verdict = run_pipeline_case(tuple(data["pipeline"]))
         return None if verdict is None else "%s: %s" % verdict
-    verdict = run_case(data["tree"])
+    if data.get("odd"):
+        def tuples(node):
+            return tuple(tuples(item) if isinstance(item, list) else item for item in node)
+
+        verdict = run_case(build(tuples(data["shape"]), data["marks"], True))
+    else:
+        verdict = run_case(data["tree"])
     return None if verdict is None else "%s: %s" % verdict
